@@ -427,6 +427,11 @@ def verify_mapper_method(mc: MapperContract, node_cls, specs, rlimit=20_000_000,
             mc.setup(I, selfv, expr)
             I.tracked = [t for t in I.tracked if t[0] is not selfv]
             I.track(selfv)
+            # mutable values a setup installs as attributes carry path state of their own (write log of a symbolic dict ...)
+            already = {id(t[0]) for t in I.tracked}
+            for av in selfv.attrs.values():
+                if isinstance(av, (SymDict, PyList, PyDict, SymSet)) and id(av) not in already:
+                    I.track(av)
 
         def rec_handler(I, self_obj, args, kwargs, rstar, rdstar, node):
             x = args[0]
@@ -449,26 +454,40 @@ def verify_mapper_method(mc: MapperContract, node_cls, specs, rlimit=20_000_000,
         if selfv.rec_contract is None:
             selfv.rec_contract = NativeHandler(rec_handler)
 
+        alternatives = [([], [], "")]
+        if getattr(mc, "old", None) is not None:
+            # entry-state expression (evaluated before the method runs), passed to every postcondition as its last argument;
+            # when it branches (e.g. on membership in a symbolic table) the method is verified once per branch
+            oouts = I.explore(lambda: I.call_function(Conc(mc.old), [selfv, expr, args_val, kw_val], {}))
+            if not oouts or any(o.kind != "ret" for o in oouts):
+                raise Unsupported("old-state expression must return a value on every path")
+            alternatives = [(list(o.pcs), [o.value], f"/old{i}" if len(oouts) > 1 else "") for i, o in enumerate(oouts)]
+
         def run_code():
             return I.call_function(Conc(fobj), [selfv, expr], {}, star, dstar, owner=_owner_of(mapper_cls, mname))
-        code_outs = I.explore(run_code)
-        rep["paths"] = len(code_outs)
-        if mc.refines is not None:
-            def run_spec():
-                I.unfold_top = foreign
-                try:
-                    return I.call_function(Conc(mc.refines), [selfv, expr, args_val, kw_val], {})
-                finally:
-                    I.unfold_top = False
-            spec_outs = I.explore(run_spec)
-            rep["obligations"] += [o.as_dict() for o in compare_outcomes(I, code_outs, spec_outs, oname + "/refines", rlimit,
-                                                                       effects=getattr(mc, "effects", False))]
-        for ename, efn in mc.ensures:
-            rep["obligations"] += [o.as_dict() for o in
-                                   check_ensures(I, code_outs, efn, [selfv, expr, args_val, kw_val], f"{oname}/{ename}", rlimit,
-                                                 allowed_exc=getattr(mc, "allowed_exc", (NotImplementedError,)))]
-        if getattr(mc, "dict_invs", None):
-            rep["obligations"] += [o.as_dict() for o in check_dict_writes(I, mc, selfv, code_outs, oname, rlimit)]
+        rep["paths"] = 0
+        for alt_pcs, old_after, alt_sfx in alternatives:
+            saved_pcs = len(I.pcs)
+            I.pcs.extend(alt_pcs)
+            code_outs = I.explore(run_code)
+            rep["paths"] += len(code_outs)
+            if mc.refines is not None:
+                def run_spec():
+                    I.unfold_top = foreign
+                    try:
+                        return I.call_function(Conc(mc.refines), [selfv, expr, args_val, kw_val], {})
+                    finally:
+                        I.unfold_top = False
+                spec_outs = I.explore(run_spec)
+                rep["obligations"] += [o.as_dict() for o in compare_outcomes(I, code_outs, spec_outs, oname + alt_sfx + "/refines", rlimit,
+                                                                           effects=getattr(mc, "effects", False))]
+            for ename, efn in mc.ensures:
+                rep["obligations"] += [o.as_dict() for o in
+                                       check_ensures(I, code_outs, efn, [selfv, expr, args_val, kw_val], f"{oname}{alt_sfx}/{ename}", rlimit,
+                                                     after=old_after, allowed_exc=getattr(mc, "allowed_exc", (NotImplementedError,)))]
+            if getattr(mc, "dict_invs", None):
+                rep["obligations"] += [o.as_dict() for o in check_dict_writes(I, mc, selfv, code_outs, oname + alt_sfx, rlimit)]
+            del I.pcs[saved_pcs:]
         # vacuity: the precondition/axiom set must be satisfiable
         r, _ = smt.check(ctx, [], rlimit=rlimit)
         rep["axioms_sat"] = r
